@@ -951,6 +951,8 @@ class Mini:
             return ("iter", [])
         if last == "new" and "NonZero" in p and len(args) == 1 and isinstance(args[0], int):
             return ("Some", args[0]) if args[0] != 0 else "None"
+        if p == "std::string::String::new" and not args:
+            return []  # a String is modelled by its bytes
         if p in ("std::vec::Vec::<T>::with_capacity", "std::vec::Vec::<T>::new"):
             if p.endswith("with_capacity") and isinstance(args[0], int) and args[0] > (1 << 32):
                 raise Panic(f"allocation of {args[0]} elements")
@@ -1260,6 +1262,8 @@ class Mini:
             return recv
         if p in ("std::string::String::len", "std::str::<impl str>::len") and isinstance(recv, list):
             return len(recv)
+        if p in ("std::string::String::is_empty", "std::str::<impl str>::is_empty") and isinstance(recv, list):
+            return len(recv) == 0
         if p.startswith(("std::option::Option::<T>::as_deref", "std::option::Option::<T>::as_ref", "std::option::Option::<T>::as_mut")) or p == "std::ops::Deref::deref":
             return recv
         if p.startswith("std::slice::<impl [T]>::"):
@@ -1287,7 +1291,7 @@ class Mini:
                 return Iter(list(recv))
             if nm == "is_empty":
                 return len(recv) == 0
-            if nm == "as_slice":
+            if nm in ("as_slice", "as_str", "as_bytes", "as_mut_slice") and not args:
                 return recv
         if p == "std::iter::traits::iterator::Iterator::enumerate":
             return ("iter", [(i, x) for i, x in enumerate(self.iterate(recv))])
